@@ -36,7 +36,12 @@ def configs(tier):
             dict(arch="UNet", sin=A, sout=B, num_downsamples=1, num_conv=1, group_norm=False),
             dict(arch="UNet", sin=B, sout=A, num_downsamples=2, num_conv=2, group_norm=True),
             dict(arch="ConvBlock", sin=[[0, 0]], sout=[[0, 0]], group_norm=True, activation="relu"),
-            dict(arch="UNet", sin=A, sout=[[1, 1], [0, 0]], num_downsamples=1, num_conv=1, group_norm=False, use_bias=False)]
+            dict(arch="UNet", sin=A, sout=[[1, 1], [0, 0]], num_downsamples=1, num_conv=1, group_norm=False, use_bias=False),
+            # requested outputs that are all of tensor order 0 but not all true scalars: parities and the split between the
+            # rank-0 types must still be restored by the inverse flattening
+            dict(arch="ResNet", sin=A, sout=[[0, 1]], num_blocks=1, num_conv=1, group_norm=False, preact=True),
+            dict(arch="DilResNet", sin=A, sout=[[0, 0], [0, 1]], num_blocks=1, group_norm=False),
+            dict(arch="UNet", sin=[[0, 1]], sout=[[0, 1], [0, 0]], num_downsamples=1, num_conv=1, group_norm=False)]
     for c in conv:
         out.append(dict(c, D=2, equivariant=False))
     if not q:
